@@ -8,6 +8,8 @@ from .cfacts import clients, decor_order_facts, traced_facts, tracer_interp
 
 
 def run(ck: Check, prog: Program) -> None:
+    from .cfacts import client_program
+    prog = client_program(prog)
     crs = clients(prog)
     ck.explain('Typestate analysis over the CFG (with exception edges for any BaseException out of the traced call) of both '
                'traced wrappers: every path is BEGIN·CALL·END on return and BEGIN·CALL·ERROR·re-raise on any exception; tracer '
